@@ -280,6 +280,14 @@ const TYPES: [u8; 10] = [0, 1, 2, 3, 4, 5, 6, 7, 14, 15];
 
 fn main() {
     let args = args();
+    // a panic that escapes the guards comes from an unguarded implementation call
+    // (to_vec / to_base58 / constructors): report it as an observation, not a tool crash
+    if let Out::Panic(m) = guard_total(|| run(args)) {
+        emit_oracle_fail("panic/unguarded-call", &format!("an unguarded implementation call panicked: {}", m));
+    }
+}
+
+fn run(args: Args) {
     let oo = args.oracle_only;
     let mut rng = Rng::new(args.seed);
     let thorough = args.tier == "thorough";
